@@ -45,6 +45,8 @@ func (o OptBz) bytes() []byte {
 }
 
 // Op is one operation label as the specification prints it (ToJson(act)).
+// Besides the KVStore / CacheWrap calls there are the calls the specification says a cache wrapper
+// refuses: SetNil (Set(k, nil)), SetNoKey (Set(nil, v)), GetNoKey, HasNoKey, DeleteNoKey (nil key).
 type Op struct {
 	Op  string `json:"op"`
 	S   int    `json:"s"`
@@ -181,6 +183,18 @@ func runSeq(p *SeqProgram, mode string) (out SeqResult) {
 	return out
 }
 
+// refused runs a call that the store is expected to refuse: a panic is recovered here (the way
+// baseapp.runTx or a module recovers) and reported as "panic"; if the call returns, what it returned
+// is reported (the specification requires "panic": a divergence).  The store stays in use afterwards.
+func refused(f func() interface{}) (res interface{}) {
+	defer func() {
+		if r := recover(); r != nil {
+			res = "panic"
+		}
+	}()
+	return f()
+}
+
 // on runs f on the store(s) of a node; with a mirrored second substore both results must agree
 func on(n *node, f func(kv types.KVStore) interface{}) interface{} {
 	r := f(n.kv)
@@ -214,6 +228,28 @@ func execSeq(nodes map[int]*node, its map[int][]types.Iterator, op Op) (res inte
 		return on(n, func(kv types.KVStore) interface{} { kv.Set(op.K, []byte(op.V)); return "ok" })
 	case "Delete":
 		return on(n, func(kv types.KVStore) interface{} { kv.Delete(op.K); return "ok" })
+	// calls the specification says are refused (nil value, nil key): each substore gets the call and
+	// recovers its own panic, and the program goes on using the same stores
+	case "SetNil":
+		return on(n, func(kv types.KVStore) interface{} {
+			return refused(func() interface{} { kv.Set(op.K, nil); return "ok" })
+		})
+	case "SetNoKey":
+		return on(n, func(kv types.KVStore) interface{} {
+			return refused(func() interface{} { kv.Set(nil, []byte(op.V)); return "ok" })
+		})
+	case "GetNoKey":
+		return on(n, func(kv types.KVStore) interface{} {
+			return refused(func() interface{} { return optVal(kv.Get(nil)) })
+		})
+	case "HasNoKey":
+		return on(n, func(kv types.KVStore) interface{} {
+			return refused(func() interface{} { return kv.Has(nil) })
+		})
+	case "DeleteNoKey":
+		return on(n, func(kv types.KVStore) interface{} {
+			return refused(func() interface{} { kv.Delete(nil); return "ok" })
+		})
 	case "IterAll":
 		return on(n, func(kv types.KVStore) interface{} {
 			var it types.Iterator
